@@ -19,7 +19,7 @@ ID = "C38"
 LEVEL = "fault_enumeration"
 TIERS = {
   "quick": {"runs": 64, "chunk": 4, "budget_s": 480, "timeout_s": 400},
-  "thorough": {"runs": 800, "chunk": 6, "budget_s": 3300, "timeout_s": 600},
+  "thorough": {"runs": 256, "chunk": 4, "budget_s": 1800, "timeout_s": 600},
 }
 RULE = ("one evaluation = one (step, capacity value or reference pair, world) comparison along a lock-step history; per run nvmax is enumerated "
         "completely over [0, nv] when nv <= 24 (else {0,1,2, nv/2, nv-2..nv} plus the active-DOF counts that occur in the history and their "
